@@ -183,6 +183,11 @@ def ite_dict(i, d, default):
     :param default: A default value that the expression should take on if `i` matches none of the keys of `d`
     :return: An expression encoding the result of the above
     """
+    # integer keys are compared with the selector as unsigned values of its width (`i == c`, `i <= c`), so order
+    # and split them by that value rather than by their Python value (e.g. -1 is the largest key, not the smallest)
+    if isinstance(i, Bits) and all(type(c) is int for c in d):
+        d = {c % (1 << i.length): v for c, v in d.items()}
+
     # for small dicts fall back to the linear implementation
     if len(d) < 4:
         return ite_cases([(i == c, v) for c, v in d.items()], default)
